@@ -41,6 +41,9 @@ CLAUSE = {
     335: "a page needs a member of an object stream (no document-level user) that is neither in the page's run, nor in the shared object table, nor before the first page",
     412: "an object the first page needs is also reached from the first page's own /Thumb and lies at or after /E (with the thumbnails)",
     435: "a page needs an object that is also reached from the page's own /Thumb and is neither in the page's run, nor in the shared object table, nor before the first page",
+    512: "the first page still inherits /Resources, /MediaBox, /CropBox or /Rotate through /Parent from a page-tree node that lies at or after /E (or the inherited value does)",
+    535: "a page still inherits /Resources, /MediaBox, /CropBox or /Rotate through /Parent from a page-tree node that is neither in the page's run, nor in the shared object table, nor before the first page",
+    635: "a page needs an object that is also reached from ANOTHER page's /Thumb and is neither in the page's run, nor in the shared object table, nor before the first page (with the thumbnails)",
     212: "an object the first page needs is also reached from /Outlines and lies at or after /E (with the outlines)",
     235: "a page needs an object that is also reached from a document-level key and is neither in the page's run, nor in the shared object table, nor before the first page",
     135: "a page needs a member of an object stream that is neither in the page's run, nor in the shared object table, nor before the first page",
@@ -266,6 +269,183 @@ def gen_inputs(rng, n, wd):
         p = os.path.join(wd, "g%d.pdf" % i)
         open(p, "wb").write(data)
         out.append({"name": "g%d" % i, "path": p, "kind": "generated", "npages": npages, "features": sorted(feat), "id": idk})
+    return out
+
+
+# ------------------------------------------------------------------ user-pair shapes and inheritance shapes
+# calculateLinearizationData decides the part of an object, and the shared-object identifiers of a page, from the SET of the
+# object's users. pair_doc: one document per kind of second user K, holding three indirect objects x used by K and by
+#   role a: exactly one later page (page 1)      role b: two later pages (pages 2 and 3)      role c: the first page and page 4
+# with the outline tree absent / present / opened with the document (/PageMode /UseOutlines puts the outline objects into the
+# first-page section and thereby into the shared object table).
+PAIR_KINDS = ["outline-action", "outline-dest", "outline-aux", "names", "other-root-key", "info", "openaction", "acroform", "threads",
+              "viewerprefs", "thumb-other", "thumb-own", "pages-only"]
+PAIR_ROLES = {"a": [1], "b": [2, 3], "c": [0, 4]}
+
+
+def pair_doc(kind, outl, npages=6):
+    """outl: 'none' | 'plain' | 'use' (outline tree absent / present / present with /PageMode /UseOutlines)"""
+    d = pdfgen.Doc()
+    cat = d.add(None)
+    pages = d.add(None)
+    font = d.add(D(Type=N("Font"), Subtype=N("Type1"), BaseFont=N("Helvetica")))
+    page_refs = []
+    for k in range(npages):
+        cs = d.add(Stream({}, ("BT /F1 12 Tf 72 720 Td (Pair %d) Tj ET\n" % k).encode() + b"% filler\n" * (2 * k)))
+        page_refs.append(d.add(D(Type=N("Page"), Parent=pages, MediaBox=[0, 0, 612, 792], Contents=cs, Resources=D(Font=D(F1=font)))))
+    d.objects[pages.n] = D(Type=N("Pages"), Count=npages, Kids=list(page_refs))
+    c = D(Type=N("Catalog"), Pages=pages)
+    d.trailer = {b"Root": cat}
+    # the three shared objects and how a page refers to them (through a private, indirect link annotation)
+    xs = {}
+    for r, pgs in PAIR_ROLES.items():
+        tgt = page_refs[(pgs[0] + 1) % npages]
+        if kind in ("outline-action", "openaction"):
+            xs[r] = (d.add(D(Type=N("Action"), S=N("GoTo"), D=[tgt, N("XYZ"), 72, 720, None])), b"A")
+        elif kind in ("outline-dest", "names"):
+            xs[r] = (d.add([tgt, N("XYZ"), 72, 720, None]), b"Dest")
+        else:
+            xs[r] = (d.add(D(Marker=Str(b"shared " + r.encode()), Deep=d.add([1, 2, 3]))), b"AuxRes")
+        for pg in pgs:
+            a = d.add({b"Type": N("Annot"), b"Subtype": N("Link"), b"Rect": [72, 650, 300, 670], b"Border": [0, 0, 0], xs[r][1]: xs[r][0]})
+            po = d.objects[page_refs[pg].n]
+            po[b"Annots"] = list(po.get(b"Annots", [])) + [a]
+    X = {r: v[0] for r, v in xs.items()}
+    if outl != "none" or kind.startswith("outline-"):
+        ol = d.add(None)
+        items = []
+        for i, r in enumerate(["a", "b", "c", None]):
+            it = D(Title=Str(b"Chapter %d" % (i + 1)), Parent=ol)
+            if r is not None and kind.startswith("outline-"):
+                it[{"outline-action": b"A", "outline-dest": b"Dest", "outline-aux": b"AuxRes"}[kind]] = X[r]
+                if kind == "outline-aux":
+                    it[b"Dest"] = [page_refs[i], N("Fit")]
+            else:
+                it[b"Dest"] = [page_refs[min(i, npages - 1)], N("Fit")]
+            items.append(d.add(it))
+        for i, it in enumerate(items):
+            if i > 0:
+                d.objects[it.n][b"Prev"] = items[i - 1]
+            if i + 1 < len(items):
+                d.objects[it.n][b"Next"] = items[i + 1]
+        d.objects[ol.n] = D(Type=N("Outlines"), First=items[0], Last=items[-1], Count=len(items))
+        c[b"Outlines"] = ol
+        if outl == "use":
+            c[b"PageMode"] = N("UseOutlines")
+    allx = [X["a"], X["b"], X["c"]]
+    if kind == "names":
+        c[b"Names"] = d.add(D(Dests=d.add(D(Names=[Str(b"a"), X["a"], Str(b"b"), X["b"], Str(b"c"), X["c"]]))))
+    elif kind == "other-root-key":
+        c[b"PieceInfo"] = d.add(D(App=D(Private=allx)))
+    elif kind == "info":
+        d.trailer[b"Info"] = d.add(D(Title=Str(b"t"), AuxRes=allx))
+    elif kind == "openaction":
+        c[b"OpenAction"] = d.add(D(Type=N("Action"), S=N("GoTo"), D=[page_refs[0], N("Fit")], Next=allx))
+    elif kind == "acroform":
+        c[b"AcroForm"] = d.add(D(Fields=[], DA=Str(b"/F1 0 Tf"), AuxRes=allx))
+    elif kind == "threads":
+        th = d.add(None)
+        bd = d.add(None)
+        d.objects[bd.n] = D(Type=N("Bead"), T=th, N=bd, V=bd, P=page_refs[0], R=[0, 0, 10, 10])
+        d.objects[th.n] = D(Type=N("Thread"), F=bd, I=D(Title=Str(b"t"), AuxRes=allx))
+        c[b"Threads"] = [th]
+    elif kind == "viewerprefs":
+        c[b"ViewerPreferences"] = d.add(D(HideToolbar=True, AuxRes=allx))
+    elif kind == "thumb-other":
+        d.objects[page_refs[5].n][b"Thumb"] = d.add(Stream(D(Width=1, Height=1, ColorSpace=N("DeviceGray"), BitsPerComponent=8, Aux=allx), b"\x80"))
+    elif kind == "thumb-own":
+        for r, pg in (("a", 1), ("b", 2), ("c", 0)):
+            d.objects[page_refs[pg].n][b"Thumb"] = d.add(Stream(D(Width=1, Height=1, ColorSpace=N("DeviceGray"), BitsPerComponent=8, Aux=X[r]), b"\x40"))
+    d.objects[cat.n] = c
+    return d
+
+
+# inheritable page attributes (ISO 32000-1 7.7.3.4): before linearizing, every one of them has to be pushed down to the pages
+INH_KEYS = [b"Resources", b"MediaBox", b"CropBox", b"Rotate"]
+
+
+def inh_doc(rng, levels, plan, npages=None):
+    """page tree of `levels` levels of /Pages nodes above the pages (1 = flat). plan: {node level (0 = root): {key: 'direct' | 'indirect'}};
+    the pages carry none of the planned keys unless rng decides (plan[-1] = set of keys some pages override). Values differ per node."""
+    d = pdfgen.Doc()
+    cat = d.add(None)
+    root = d.add(None)
+    fonts = [d.add(D(Type=N("Font"), Subtype=N("Type1"), BaseFont=N(b"Helvetica" if i == 0 else b"Courier"))) for i in range(2)]
+    npages = npages or rng.choice([2, 3, 5, 7])
+    serial = [0]
+
+    def value(key, how, lvl):
+        serial[0] += 1
+        k = serial[0]
+        if key == b"Resources":
+            v = {b"Font": {b"F1": fonts[lvl % 2]}, b"ProcSet": [N("PDF"), N("Text")]}
+        elif key == b"MediaBox":
+            v = [0, 0, 612 - k, 792 - lvl]
+        elif key == b"CropBox":
+            v = [10 + k, 10 + lvl, 500, 600]
+        else:
+            return 90 * (1 + (k + lvl) % 3)          # /Rotate is a scalar: always direct
+        return d.add(v) if how == "indirect" else v
+
+    override = plan.get(-1, set())
+    page_refs = []
+    for k in range(npages):
+        cs = d.add(Stream({}, ("BT /F1 12 Tf 72 720 Td (Inh %d) Tj ET\n" % k).encode()))
+        pg = D(Type=N("Page"), Contents=cs)
+        if k % 3 == 2:      # some pages hide the ancestors' values by their own
+            for key in sorted(override):
+                pg[key] = {b"Resources": {b"Font": {b"F1": fonts[1]}}, b"MediaBox": [0, 0, 600, 700 + k], b"CropBox": [5, 5, 400, 500], b"Rotate": 270}[key]
+        page_refs.append(d.add(pg))
+
+    def build(lvl, refs, parent):
+        """node at level lvl over the pages refs"""
+        me = d.add(None) if lvl > 0 else root
+        node = D(Type=N("Pages"), Count=len(refs))
+        if parent is not None:
+            node[b"Parent"] = parent
+        for key, how in plan.get(lvl, {}).items():
+            node[key] = value(key, how, lvl)
+        if lvl + 1 >= levels or len(refs) < 2:
+            node[b"Kids"] = list(refs)
+            for r in refs:
+                d.objects[r.n][b"Parent"] = me
+        else:
+            half = (len(refs) + 1) // 2
+            node[b"Kids"] = [build(lvl + 1, refs[:half], me), build(lvl + 1, refs[half:], me)]
+        d.objects[me.n] = node
+        return me
+    build(0, page_refs, None)
+    # a page that would end up without the two required attributes gets its own
+    for r in page_refs:
+        for key, own in ((b"Resources", {b"Font": {b"F1": fonts[0]}}), (b"MediaBox", [0, 0, 612, 792])):
+            o = d.objects[r.n]
+            while o is not None and key not in o:
+                o = d.objects[o[b"Parent"].n] if b"Parent" in o else None
+            if o is None:
+                d.objects[r.n][key] = own
+    d.objects[cat.n] = D(Type=N("Catalog"), Pages=root)
+    d.trailer = {b"Root": cat}
+    return d
+
+
+def inh_plans(rng, quick):
+    """(name, levels, plan): every inheritable key alone on the root and alone on an intermediate node, all four together, random mixtures"""
+    out = []
+    for key in INH_KEYS:
+        nm = key.decode().lower()
+        out.append(("root-" + nm, 1, {0: {key: rng.choice(["direct", "indirect"])}}))
+        out.append(("mid-" + nm, 2, {1: {key: rng.choice(["direct", "indirect"])}}))
+    out.append(("all-root", 2, {0: {k: "indirect" if i % 2 == 0 else "direct" for i, k in enumerate(INH_KEYS)}, 1: {b"CropBox": "indirect", b"Rotate": "direct"}}))
+    for i in range(3 if quick else 40):
+        levels = rng.choice([1, 2, 2, 3])
+        plan = {}
+        for lv in range(levels):
+            m = plan.setdefault(lv, {})
+            for key in INH_KEYS:
+                if rng.random() < 0.45:
+                    m[key] = rng.choice(["direct", "indirect"])
+        plan[-1] = set(k for k in INH_KEYS if rng.random() < 0.3)
+        out.append(("mix%d" % i, levels, plan))
     return out
 
 
@@ -680,6 +860,29 @@ def build_jobs(chk, wd):
             inputs.append(inp)
             for cfg in [("none", "disable", []), ("none", "generate", [])] + ([] if quick else [("none", "preserve", ["--compress-streams=n"]), ("aes256", "disable", [])]):
                 jobs.append((inp, cfg))
+    # user-pair shapes: an object used by a catalog / trailer / thumbnail user K and by one later page, two later pages, the first and a
+    # later page; outline tree absent / present / opened with the document
+    for k in PAIR_KINDS:
+        for outl in (("plain", "use") if k.startswith("outline-") else ("none", "use")):
+            name = "pair-%s-%s" % (k, outl)
+            p = os.path.join(wd, name + ".pdf")
+            open(p, "wb").write(pdfgen.write_classic(pair_doc(k, outl))[0])
+            inp = {"name": "probe-" + name, "path": p, "kind": "generated-user-pair", "npages": 6, "features": ["second-user=" + k, "outlines=" + outl], "id": "none"}
+            inputs.append(inp)
+            for cfg in [("none", "disable", []), ("none", "generate", [])] + ([] if quick else [("none", "preserve", ["--compress-streams=n"]), ("none", "disable", ["--stream-data=preserve"]),
+                                                                                           ("aes256", "disable", [])]):
+                jobs.append((inp, cfg))
+    # inheritance shapes: each inheritable attribute on the root / on an intermediate /Pages node, all together, random mixtures
+    for nm_, lv, plan in inh_plans(rng, quick):
+        name = "inh-" + nm_
+        d = inh_doc(rng, lv, plan)
+        p = os.path.join(wd, name + ".pdf")
+        open(p, "wb").write(pdfgen.write_classic(d)[0])
+        inp = {"name": "probe-" + name, "path": p, "kind": "generated-inherited-attributes", "npages": None,
+               "features": ["levels=%d" % lv] + ["%s:%s" % ("pages" if l < 0 else "level%d" % l, ",".join(sorted(x.decode() for x in m))) for l, m in sorted(plan.items())], "id": "none"}
+        inputs.append(inp)
+        for cfg in [("none", "disable", []), ("none", "preserve", ["--compress-streams=n"]), ("none", "generate", [])] + ([] if quick else [("aes256", "disable", []), ("none", "disable", ["--stream-data=preserve"])]):
+            jobs.append((inp, cfg))
     for inp in boundary_docs(chk, wd, None):
         inp = dict(inp, name="probe-" + inp["name"])
         inputs.append(inp)
@@ -776,9 +979,23 @@ def part_files(chk, runner):
         if len(f) > 1 and f[1]:
             tie_parts.append({"input": jobs[i][0]["path"], "features": jobs[i][0]["features"], "argv": ["qpdf"] + args,
                               "objects_(number:model_part:observed_part)": f[1][:300]})
+    # shared-object identifiers: model of the last loop of calculateLinearizationData (Lin/SharedIds.v) on the users found in the file
+    souts = common.run_lines(runner, ["linshared " + done[k][2] for k in pj], shards=4)
+    tie_shared = []
+    n_shared_pages = 0
+    for k, o in zip(pj, souts):
+        i, rc, out, args = done[k]
+        f = o.split(" ")
+        if o == "none" or not f[0].isdigit():
+            tie_shared.append({"input": jobs[i][0]["path"], "argv": ["qpdf"] + args, "result": o[:200]})
+            continue
+        n_shared_pages += int(f[0])
+        if len(f) > 1 and f[1]:
+            tie_shared.append({"input": jobs[i][0]["path"], "features": jobs[i][0]["features"], "argv": ["qpdf"] + args,
+                               "pages_(index:model_identifiers:file_identifiers)": f[1][:300]})
     nontriv = set()
     kinds, clauses_seen = {}, {}
-    tie_hint, tie_arith, tie_show, tie_p1 = [], [], [], []
+    tie_hint, tie_arith, tie_show, tie_p1, tie_push = [], [], [], [], []
     n_tables = n_enc = 0
     for (i, rc, out, args), rep, (r1, r2) in zip(done, reps, qres):
         inp, cfg = jobs[i]
@@ -793,6 +1010,10 @@ def part_files(chk, runner):
             chk.violation(dict(case, kind="property-fails-on-implementation", part="annex-f", clause=c, why=CLAUSE.get(c, "clause %s" % c),
                                measured_or_expected=a, stated_or_found=b, parameters=dict(zip(["L", "H0", "H1", "O", "E", "N", "T"], rep.get("params", []))),
                                raw=rep.get("raw")), signature=signature_of(e, rep, xref_stream, cfg[0] != "none", data))
+        # model of pushInheritedAttributesToPage (C12, pa_pushdown_effective: pa_clean): no page inherits anything in a linearized output
+        inh = [n for n in rep.get("notes", []) if n[0] == 50]
+        if inh and not any(e[0] in (512, 535) for e in rep["errors"]):
+            tie_push.append(dict(case, **{"pages_still_inheriting_(page_index,node)": [(n[1], n[2]) for n in inh][:6]}))
         # --check-linearization accepts the file without warning
         c_rc, c_so, c_se = r1
         if c_rc != 0 or b"no linearization errors" not in c_so or b"WARNING" in c_se:
@@ -834,7 +1055,7 @@ def part_files(chk, runner):
             inp, cfg = jobs[i]
             tie_p1.append({"input": inp["path"], "config": cfg_name(cfg), "differences": dd[:3]})
     for name, lst in (("hint-encoder", tie_hint), ("lindict-arithmetic", tie_arith), ("show-linearization", tie_show), ("pass-agreement", tie_p1),
-                      ("parts-classification", tie_parts)):
+                      ("parts-classification", tie_parts), ("shared-identifiers", tie_shared), ("pushdown-clean", tie_push)):
         if lst:
             chk.violation({"kind": "correspondence-broken", "correspondence": "corr:C07:" + name, "differing_cases": len(lst), "first_cases": lst[:2],
                            "note": "the Annex F checker accepts the outputs, but the model / qpdf's own reading no longer agrees with the real bytes"}, no_input=True)
@@ -847,6 +1068,7 @@ def part_files(chk, runner):
     pp["encrypted_outputs_(dictionary/offset_clauses_only)"] = n_enc
     pp["pass1_files_compared"] = len(p1jobs)
     pp["objects_classified_by_the_parts_model"] = n_parts_objs
+    pp["page_identifier_lists_computed_by_the_shared-identifier_model"] = n_shared_pages
     pp["clauses_failed"] = {str(k): v for k, v in clauses_seen.items()}
     pp["pages_distribution"] = sorted(set(inp["npages"] for inp in inputs if inp["npages"]))
 
